@@ -39,6 +39,20 @@ def rate_peers():
     c3['kexinit'] = {'kex': ['sntrup761x25519-sha512@openssh.com', 'mlkem768x25519-sha256'], 'key': ['ssh-ed25519'], 'enc': ['aes128-ctr'],
                      'mac': ['hmac-sha2-256'], 'comp': ['none']}
     out.append(('no-classic-dh-kex', c3))
+    # connections of the rate check (everything after the handshake and the probes) that are accepted and then left without a word,
+    # all of them or every other one: the check still ends with its time window
+    probe = runner.run_one({'argv': ['-n', '--skip-rate-test', HOST], 'servers': {(HOST, 22): peers.ServerCfg(base)}})
+    k = probe.get('nconn') or 0
+    for which in ('all', 'odd'):
+        c4 = peers.ServerCfg(base)
+
+        def silent(n, kind, idx, data, which=which, k=k):
+            from harness import fakenet
+            if n > k and kind == 'banner' and (which == 'all' or n % 2 == 1):
+                return [fakenet.STALL]
+            return [data]
+        c4['mutate'] = silent
+        out.append(('rate-connections-silent-%s' % which, c4))
     return out
 
 
@@ -81,6 +95,59 @@ def footprint_peers():
         out.append(('refuses-both-versions/args=%s' % (''.join(extra) or 'default'), stub, extra))
         out.append(('refuses-both-versions-ssh2-banner/args=%s' % (''.join(extra) or 'default'), stub2, extra))
     return out
+
+
+def targets_leg(ck, dh):
+    """A target list: the bound is per listed server - each server receives the connections of its own audit and of no other, also
+    when several listed targets share a host name or address and differ only in the port."""
+    arch = c09.archetypes()
+    names = sorted(arch)
+    ip = '10.0.0.7'
+    layouts = [[(ip, 2201), (ip, 2202), (ip, 2203)], [(ip, 22), ('10.0.0.8', 22), (ip, 2222)], [('samehost.example', 2201), ('samehost.example', 2202)]]
+    scs, meta = [], []
+    for lay in layouts:
+        for threads in (1, 2):
+            for skip in (True, False):
+                servers = {}
+                resolver = {}
+                for i, (h, p) in enumerate(lay):
+                    addr = ip if h.endswith('.example') else h
+                    servers[(addr, p)] = arch[names[i % len(names)]]
+                    if h.endswith('.example'):
+                        import socket as _socket
+                        resolver[h] = [(_socket.AF_INET, addr)]
+                scs.append({'argv': ['-n', '--threads', str(threads)] + (['--skip-rate-test'] if skip else []) + ['-T', '{tmp}/targets.txt'], 'servers': servers, 'resolver': resolver,
+                            'files': {'targets.txt': ''.join('%s:%d\n' % hp for hp in lay)}, 'fresh': True})
+                meta.append((lay, threads, skip, servers))
+    for (lay, threads, skip, servers), sc, r in zip(meta, scs, runner.run_many(scs)):
+        ck.evaluated()
+        replay = {'targets': ['%s:%d' % hp for hp in lay], 'threads': threads, 'argv': sc['argv'], 'exit': r.get('exit'), 'nconn': r.get('nconn'), 'stdout': (r.get('stdout') or '')[-1500:]}
+        if r.get('harness_error'):
+            raise common.Machinery('run failed: %r' % r['harness_error'])
+        if r.get('hang') or r.get('runaway'):
+            ck.violation('runaway-connections', 'target list %r: the run did not end' % (lay,), replay)
+            continue
+        per = {}
+        for e in r['events']:
+            if e.get('ev') == 'connect':
+                per.setdefault((e.get('host'), e.get('port')), []).append(bool(e.get('nb')))
+        ok = True
+        for (addr, p), cfg in servers.items():
+            srv = audit.srv_of(cfg, skip, dh, argv=sc['argv'])
+            got = per.get((addr, p), [])
+            probes = [x for x in got if not x]
+            bound = 2 + len(set(srv['hk'])) + 9 * len(srv['gex'])
+            if not probes:
+                ck.violation('listed-server-never-contacted', 'target list %r, %d thread(s): the server at %s:%d was never connected to (connections went to %r)'
+                             % (lay, threads, addr, p, {('%s:%s' % k): len(v) for k, v in per.items()}), replay)
+                ok = False
+            elif len(probes) > bound or len([x for x in got if x]) > 38:
+                ck.violation('per-server-connections-exceed-bound', 'target list %r, %d thread(s): the server at %s:%d received %d handshake/probe and %d rate-check connections; '
+                             'the bound for one audit of it is %d and 38' % (lay, threads, addr, p, len(probes), len(got) - len(probes), bound), replay)
+                ok = False
+        if ok:
+            ck.cov['traces_validated_against_impl'] += 1
+            ck.nontrivial(('targets', tuple(lay), threads, skip))
 
 
 def run(tier):
@@ -171,6 +238,9 @@ def run(tier):
             ck.violation('probe-connections-exceed-bound', '[%s] %d handshake/probe connections; the bound for this peer is %d' % (what, len(others), bound), replay)
         if len(nb) > 38:
             ck.violation('rate-connections n>38', '[%s] the rate check opened %d connections' % (what, len(nb)), replay)
+        if what.startswith('rate/') and (r.get('vtime') or 0) > 4.0:
+            # handshake + probes take a few round trips on these cooperative peers, the rate check 1.5 s by its own clock
+            ck.violation('rate-check-outlasts-its-window', '[%s] the audit took %.1f s of (virtual) time: the connection-rate check did not end with its 1.5 s window' % (what, r['vtime']), replay)
         if skip and nb:
             ck.violation('rate-check-ran-while-skipped', '[%s] %d rate connections with --skip-rate-test' % (what, len(nb)), replay)
         if r.get('open'):
@@ -191,6 +261,7 @@ def run(tier):
                          '[%s] TraceAudit rejects the run: %s' % (what, {k: v for k, v in (info or {}).items() if k != 'events'}),
                          {'scenario': what, 'info': info})
     # the command line itself: the attack modes are entered only on request and --skip-rate-test reaches the audit (SshCli.tla)
+    targets_leg(ck, dh)
     from checks import cli
     cli.run_leg(ck, tier)
     ck.sample({'scenario': meta[1][0], 'connections': results[1].get('nconn'), 'trace_head': audit.trace_events(results[1])[:12]})
